@@ -17,13 +17,13 @@ ID = "C17"
 LEVEL = "exploration"
 TECHNIQUE = "shadow timeout table vs the live server under a controlled clock; destroy() call counter; real-time cross-check"
 RULE = ("seeded timelines over 1-4 instances: create with every timeout unit alone and in combinations, every instance-scoped request kind, "
-        "keep-alive, metrics, full-metrics, creation of another instance, stop-instance, clock advances to timeout-eps / exactly timeout / "
+        "keep-alive, metrics, full-metrics, whole-server /save-state (not an access), creation of another instance, stop-instance, clock advances to timeout-eps / exactly timeout / "
         "timeout+eps of a chosen instance; with and without a FileAdapter (expired externalised instances must be restored by the next request "
         "to them, keep-alive included). distinct_nontrivial = distinct (event kind at expiry boundary, boundary class, adapter) combinations "
         "in which an instance was within eps of its deadline when a sweep trigger happened.")
 ASSUMPTIONS = ["decided under the substituted clock (datetime.now is the only time source of the instance manager); real time is cross-checked on short timelines only",
                "a direct access to an expired but not yet swept instance is unspecified: the shadow adopts what the server did"]
-REQUIRED = {"events": 2000, "sweep_checks": 1000, "boundary_hits": 100, "expiries_observed": 100, "restores_observed": 20}
+REQUIRED = {"whole_server_saves": 10, "events": 2000, "sweep_checks": 1000, "boundary_hits": 100, "expiries_observed": 100, "restores_observed": 20}
 BUDGET_S = {"quick": 110, "thorough": 1500}
 
 UNITS = ["weeks", "days", "hours", "minutes", "seconds", "milliseconds", "microseconds"]
@@ -249,6 +249,21 @@ class Run:
                 return dict(kind="full-metrics-content", listed=sorted(self.all_ids.index(i) for i in listed), expected=sorted(self.all_ids.index(i) for i in self.shadow), count=js["instanceCount"])
         return None
 
+    def save_state(self):
+        """GET /save-state (whole-server save): not an access to any instance - no timer restarts, nothing is swept or kept alive by it."""
+        insts = self.app._instance_manager._instances
+        if not self.tmp or not insts or any(v["instance"].session_state is None for v in insts.values()):
+            return None          # (a whole-server save with a session-less instance answers 500 on this code base: not part of this property)
+        self.counters["events"] = self.counters.get("events", 0) + 1
+        r = self.c.get("/save-state")
+        if r.status_code != 200:
+            return dict(kind="save-state-failed", status=r.status_code, body=r.get_data(as_text=True)[:160])
+        self.counters["whole_server_saves"] = self.counters.get("whole_server_saves", 0) + 1
+        for iid in insts:
+            if iid in self.shadow:
+                self.shadow[iid]["ext"] = True
+        return self.no_sweep_check()
+
     def stop(self, iid):
         self.counters["events"] = self.counters.get("events", 0) + 1
         self.c.post("/%s/stop-instance" % iid)
@@ -302,6 +317,9 @@ def run_clock_case(case, counters):
                 iid = rng.choice(sorted(run.shadow))
                 trace.append(("stop", ids.index(iid)))
                 w = run.stop(iid)
+            elif r < 0.46 and run.tmp:
+                trace.append(("save-state",))
+                w = run.save_state()
             else:
                 iid = rng.choice(ids)
                 kind = rng.choice(ACCESS)
